@@ -202,6 +202,15 @@ def run_task(t):
     if i == 0:
         with open(trace) as f:
             sample = [next(f, "").strip() for _ in range(12)]
+    import hashlib
+    # digest of the observable trace: the ledger counters lv / pv are judged by the specification (they may legitimately differ
+    # between compilers while user code runs: number of temporaries alive), everything else must be identical across configurations
+    hd = hashlib.sha256()
+    strip = re.compile(rb',"(lv|pv)":-?\d+')
+    with open(trace, "rb") as f:
+        for line in f:
+            hd.update(strip.sub(b"", line))
+    digest = hd.hexdigest()
     for p in made + [trace + ".err", part]:
         if os.path.exists(p):
             os.remove(p)
@@ -212,7 +221,7 @@ def run_task(t):
                 stats = json.loads(line[6:])
             except ValueError:
                 pass
-    return dict(world=t["world"], tag=tag, executions=nexec, events=nev, rejections=rejs, stats=stats, sample=sample)
+    return dict(world=t["world"], tag=tag, executions=nexec, events=nev, rejections=rejs, stats=stats, sample=sample, digest=digest, idx=i)
 
 
 def run_tasks(tasks):
